@@ -15,7 +15,10 @@ from harness.docs import C1
 
 SELECTIONS = [None, {'exclude': ['DECORATION']}, {'include': ['CORE', 'BARLINES', 'STRUCTURAL', 'SIGNATURES']},
               {'exclude': ['ALTERATION']}, {'include': ['DURATION', 'PITCH', 'STRUCTURAL', 'BARLINES', 'CHORD']},
-              {'exclude': ['PITCH']}, {'exclude': ['DURATION', 'BARLINES']}, {'include': ['NOTE_REST', 'CHORD', 'HEADER', 'SPINE_OPERATION']}]
+              {'exclude': ['PITCH']}, {'exclude': ['DURATION', 'BARLINES']}, {'include': ['NOTE_REST', 'CHORD', 'HEADER', 'SPINE_OPERATION']},
+              # durations only / pitches only
+              {'exclude': ['PITCH', 'ALTERATION', 'REST']}, {'include': ['DURATION', 'STRUCTURAL', 'BARLINES', 'CHORD', 'SIGNATURES']},
+              {'exclude': ['DURATION']}, {'include': ['PITCH', 'ALTERATION', 'CHORD', 'STRUCTURAL', 'SIGNATURES']}]
 
 
 def worker(kp, job):
